@@ -10,7 +10,7 @@ accepted by this module.
 import html
 import os
 import xml.etree.ElementTree as ET
-from typing import Collection, Dict, Optional, Iterator, Sequence, Union
+from typing import Collection, Dict, Iterable, Optional, Iterator, Sequence, Union
 
 from .bounds import Range
 from .edits import AbstractCompoundEdit, Insert, Match, Remove
@@ -203,6 +203,26 @@ class XMLElement(ContainerNode):
             text=text_obj,
             children=self._children.to_obj()
         )
+
+    def copy_from(self, children: Iterable[TreeNode]) -> 'XMLElement':
+        # children are copies of (tag, attrib, [text,] child elements), in the order returned by self.children()
+        children = list(children)
+        tag, attrib, elements = children[0], children[1], children[-1]
+        if self.text is not None:
+            text = children[2]
+        else:
+            text = None
+        ret = self.__class__(
+            tag=tag,
+            attrib={kvp.key.copy(): kvp.value.copy() for kvp in attrib},
+            text=text,
+            allow_key_edits=not isinstance(self.attrib, FixedKeyDictNode),
+            auto_match_keys=getattr(self.attrib, 'auto_match_keys', True)
+        )
+        # the copied child elements already belong to the copied XMLElementChildren node, so adopt it as is
+        ret._children = elements
+        elements.parent = ret
+        return ret
 
     def children(self) -> Collection[TreeNode]:
         ret = (self.tag, self.attrib)
